@@ -703,6 +703,32 @@ v('C09', 'fire', F, """    measurement_times = np.hstack([np.empty(0)] + [
     start_time = initial_pva.name""", 'seeded C09: de-duplication per stream only')
 v('C08', 'fire', KA, 'H = np.zeros((2 * n, 2 * n))', 'H = np.zeros((2 * n, 2 * n), dtype=F.dtype)', 'seeded C08: work matrix inherits the dtype of F')
 v('C19 C16', 'fire', T, 'result = np.empty_like(diff, dtype=float)', 'result = np.empty_like(diff)', 'F7 repair reverted')
+# round-6 seeds C01 (regime clamp inside the domain), C13 (labels of the new rows from a run-time
+# object), C10 (window applied to the caller's measurement objects), C18 (dropped defensive copy)
+v('C01', 'fire', K, 'transform.RAD_TO_DEG * rho1 / cos_lat * dt', 'transform.RAD_TO_DEG * rho1 / max(cos_lat, 0.1) * dt',
+  'round-6 seed: 1/cos(lat) clamped at 84.3 deg')
+v('C01', 'fire', K, 'transform.RAD_TO_DEG * rho1 / cos_lat * dt', 'transform.RAD_TO_DEG * rho1 / np.maximum(0.1, cos_lat) * dt')
+v('C01 C02 C13', 'fire', S, 'index=increments.index, columns=TRAJECTORY_COLS)', 'index=increments.index, columns=self.trajectory.columns)',
+  'round-6 seed C13: positional data labelled with the initial Pva label order')
+v('C10 C11 C19', 'fire', F,
+  ["    measurement_times = np.hstack([np.empty(0)] + [\n        np.asarray(measurement.data.index) for measurement in measurements])\n    measurement_times = np.sort(np.unique(measurement_times))\n\n    start_time = times[0]\n    end_time = times[-1]\n    measurement_times = measurement_times[(measurement_times >= start_time) &\n                                          (measurement_times <= end_time)]\n"],
+  ["    start_time = times[0]\n    end_time = times[-1]\n    for measurement in measurements:\n        in_span = ((measurement.data.index >= start_time) &\n                   (measurement.data.index <= end_time))\n        measurement.data = measurement.data[in_span]\n\n    measurement_times = np.hstack([np.empty(0)] + [\n        np.asarray(measurement.data.index) for measurement in measurements])\n    measurement_times = np.sort(np.unique(measurement_times))\n"],
+  'round-6 seed C10: the window is applied to the caller\'s measurement objects')
+v('C18 C05 C19', 'fire', T, ['    lla = np.asarray(lla, dtype=float)\n    dr_n = np.asarray(dr_n)\n', '    lla = np.atleast_2d(lla).copy()\n    dr_n = np.atleast_2d(dr_n)\n'],
+  ["    lla = np.require(lla, dtype=float, requirements='W')\n    dr_n = np.asarray(dr_n)\n", '    lla = np.atleast_2d(lla)\n    dr_n = np.atleast_2d(dr_n)\n'],
+  'round-6 seed C18: perturb_lla perturbs a writeable float array in place')
+v('C18', 'silent', T, ['    lla = np.asarray(lla, dtype=float)\n    dr_n = np.asarray(dr_n)\n'],
+  ["    lla = np.require(lla, dtype=float)\n    dr_n = np.asarray(dr_n)\n"], 'np.require followed by the copy')
+# COL-BYNAME on row kinds (round-6 seed C05; F8)
+v('C04 C05 C11', 'fire', 'error_model.py', 'pva_error[TRAJECTORY_ERROR_COLS].values)', 'pva_error.values)', 'F8 repair reverted')
+v('C05 C18', 'fire', 'sim.py',
+  ['    result = pva.copy()\n    result[LLA_COLS] = transform.perturb_lla(result[LLA_COLS], pva_error[NED_COLS])\n',
+   '    result[VEL_COLS] += pva_error[VEL_COLS]\n', '    result[RPH_COLS] += pva_error[RPH_COLS]\n'],
+  ['    pva_error = np.asarray(pva_error, dtype=float)\n    result = pva.copy()\n    result[LLA_COLS] = transform.perturb_lla(result[LLA_COLS], pva_error[:3])\n',
+   '    result[VEL_COLS] += pva_error[3:6]\n', '    result[RPH_COLS] += pva_error[6:9]\n'],
+  'round-6 seed C05: PvaError read by position')
+v('C05 C18', 'fire', 'sim.py', 'result[VEL_COLS] += pva_error[VEL_COLS]', 'result[VEL_COLS] += pva_error.iloc[3:6].values')
+v('C05 C18', 'silent', 'sim.py', 'result[VEL_COLS] += pva_error[VEL_COLS]', 'result[VEL_COLS] += pva_error.loc[VEL_COLS]')
 v('C13 C02', 'fire', S, """        self.lla[0] = self.initial_pva[LLA_COLS]
         self.velocity_n[0] = self.initial_pva[VEL_COLS]
         self.mat_nb[0] = transform.mat_from_rph(self.initial_pva[RPH_COLS])""", """        self.lla[0] = pva[LLA_COLS]
